@@ -327,6 +327,12 @@ MSG_VARIANTS = [
          cjk=["龥一", "一龥", "龥龥", "一一"],
          mixed=["name 龥 A", "name 一 B", "龥 C", "D 一"],
          latin=["naïve A", "naïve B", "naïve C", "naïve D"]),
+    # messages that contain a label word themselves: they are shown verbatim behind the label the library adds, and the
+    # explanation of the clause starts behind that FIRST label
+    dict(ascii=["see the explain: section A", "see the explain: section B", "explain: twice C", "D explain:"],
+         cjk=["参见说明: 第甲节", "参见说明: 第乙节", "说明: 丙重复", "丁说明:"],
+         mixed=["A explain: 与 说明: 并存", "B 说明: 与 explain: 并存", "explain: C项 说明:", "说明: D explain:"],
+         latin=["voir explain: é A", "voir explain: é B", "explain: ü C", "Ж D explain:"]),
 ]
 LABELS = {"zh": "说明: ", "en": "explain: "}
 SEP = "; "
